@@ -493,8 +493,16 @@ def corner_copies_hold_floats(chk, repo, pid, quals, floor=8):
                                     "(`.astype(float)` or `.astype(max(corner.dtype, type(value)))`): integer-cornered regions "
                                     "must not truncate the stored coordinate")
     n = 0
+    per_function = {}
+    scan = []
     for q in quals:
-        v = FV(repo, q)
+        scan.append((q, q, None))
+        # helpers introduced later inside these functions (a closure that now holds the copy-and-store) are searched as well
+        for q2, f2 in repo.funcs.items():
+            if f2.parent is not None and f2.parent.qual == q and repo.is_new_function(q2):
+                scan.append((q2, q, FV(repo, q)))
+    for q, owner, parent_v in scan:
+        v = FV(repo, q, parent=parent_v) if parent_v is not None else FV(repo, q)
         for st in v.stmts():
             tgt = None
             if isinstance(st, ast.Assign) and len(st.targets) == 1 and isinstance(st.targets[0], ast.Subscript):
@@ -511,6 +519,7 @@ def corner_copies_hold_floats(chk, repo, pid, quals, floor=8):
                         not any(h[0] in ("attr", "prop") and h[1] in ("pmin", "pmax") for h in heads):
                     continue
                 n += 1
+                per_function[owner] = per_function.get(owner, 0) + 1
                 ok = False
                 # conversions applied to the copied corner array itself (not ones buried in the dtype expression)
                 chain = []
@@ -540,7 +549,9 @@ def corner_copies_hold_floats(chk, repo, pid, quals, floor=8):
                        f"`{v.src(st)[:80]}` stores into {v.show(b)[:90]}, a copy of a region corner that keeps the corner's "
                        "dtype: with integer corners the stored coordinate is truncated (the selected plane / face moves to "
                        "another cell)", v.f, st)
-    chk.require(n >= floor, f"{pid}.corner-dtype: only {n} corner-copy stores found ({floor} confirmed by reading)")
+    missing = [q for q in quals if not per_function.get(q)]
+    chk.require(not missing, f"{pid}.corner-dtype: no corner-copy store found any more in {missing} (each of {quals} had some "
+                             "when the rule was written)")
 
 
 # ------------------------------------------------------------------ D8
